@@ -16,6 +16,7 @@ import (
 	"time"
 
 	"github.com/oauth2-proxy/oauth2-proxy/v7/pkg/apis/options"
+	"github.com/oauth2-proxy/oauth2-proxy/v7/pkg/encryption"
 	sessionsapi "github.com/oauth2-proxy/oauth2-proxy/v7/pkg/apis/sessions"
 )
 
@@ -65,6 +66,7 @@ func vIdentSXopt(i *vIdent) vsx {
 func driveC01(t *testing.T, out *vEmitter) {
 	vC01HtpasswdReload(t, out)
 	vC01BearerSequence(t, out)
+	vC01StaleCredential(t, out)
 	vKeys()
 	htp := vWriteFile("c01-htpasswd", "htuser:{SHA}"+vB64Std(vSHA1([]byte("htpass")))+"\n")
 	variants := []vC01Variant{
@@ -611,5 +613,73 @@ func vC01BearerSequence(t *testing.T, out *vEmitter) {
 	if served == 0 {
 		// a control, not a clause of the property: without it the sequence above checks nothing
 		out.Violation("control/authorised-bearer-never-served", "the authorised bearer tokens of the sequence sweep were never served: the sequence checks nothing", map[string]interface{}{})
+	}
+}
+
+// vC01StaleCredential: a stored session older than the refresh period whose provider cannot refresh it is only as good
+// as its ID token: with and without nonce checking, on every disclosing endpoint and for both stores, a session whose
+// ID token no longer verifies (expired, signed by an unknown key, another issuer or audience, altered nonce) discloses
+// nothing; the control (a token that verifies) is served.
+func vC01StaleCredential(t *testing.T, out *vEmitter) {
+	vKeys()
+	past := time.Now().Add(-time.Hour).Unix()
+	type tok struct {
+		label string
+		key   *vKey
+		extra map[string]interface{}
+		valid bool
+	}
+	for _, redis := range []bool{false, true} {
+		for _, skipNonce := range []bool{false, true} {
+			e := vNewEnv(t, vEnvCfg{oidc: true, redis: redis, mod: func(o *options.Options) {
+				o.Cookie.Refresh = time.Hour
+				o.Providers[0].OIDCConfig.InsecureSkipNonce = skipNonce
+			}})
+			// the provider refuses every refresh: the loader falls back to validating the stored ID token
+			e.idp.onToken = func(url.Values) (int, string, string, error) {
+				return 400, "application/json", `{"error":"invalid_grant"}`, nil
+			}
+			nonce := []byte("login-nonce-0123456789")
+			own := encryption.HashNonce(nonce)
+			toks := []tok{
+				{"valid", vKeyRSA, map[string]interface{}{"nonce": own}, true},
+				{"expired", vKeyRSA, map[string]interface{}{"nonce": own, "exp": past}, false},
+				{"unknown-key", vKeyRSA2, map[string]interface{}{"nonce": own}, false},
+				{"other-issuer", vKeyRSA, map[string]interface{}{"nonce": own, "iss": "https://elsewhere.example"}, false},
+				{"other-audience", vKeyRSA, map[string]interface{}{"nonce": own, "aud": "another-client"}, false},
+				{"other-nonce", vKeyRSA, map[string]interface{}{"nonce": encryption.HashNonce([]byte("somebody-elses-login"))}, skipNonce},
+				{"no-nonce", vKeyRSA, map[string]interface{}{}, skipNonce},
+			}
+			served := 0
+			for _, tk := range toks {
+				for _, hasRT := range []bool{true, false} {
+					for _, target := range []string{"/page", "/oauth2/auth", "/oauth2/userinfo"} {
+						b := e.newBrowser("https://app.example.com")
+						s := b.seedSession("user@example.com", 2*time.Hour, 20)
+						s.Nonce = nonce
+						s.ExpiresOn = nil
+						if !hasRT {
+							s.RefreshToken = ""
+						}
+						s.IDToken = vJWT(tk.key, "RS256", vClaims("user@example.com", tk.extra))
+						vReseed(b, s)
+						r := b.get(target)
+						disclosed := r.Hit() || r.Status == 202 || (r.Status == 200 && strings.Contains(r.Body, "\"email\""))
+						out.Obs("stale-credential", true, vL(vBool(redis), vBool(skipNonce), vS(tk.label), vBool(hasRT), vS(target), vI(int64(r.Status)), vBool(disclosed)))
+						out.Stat("stale_credential_requests", 1)
+						if disclosed && tk.valid {
+							served++
+						}
+						if disclosed && !tk.valid {
+							out.Violation("access/disclosure-without-credential", "a request was forwarded upstream, answered 202 or given user info on a stale session whose ID token no longer verifies and which the provider would not refresh",
+								map[string]interface{}{"credential": "stale session, id_token " + tk.label, "nonce_checking": !skipNonce, "redis": redis, "has_refresh_token": hasRT, "target": target, "status": r.Status})
+						}
+					}
+				}
+			}
+			if served == 0 {
+				out.Violation("control/valid-stale-session-never-served", "the stale session with a verifying ID token was never served: the sweep checks nothing", map[string]interface{}{"redis": redis, "nonce_checking": !skipNonce})
+			}
+		}
 	}
 }
